@@ -1,6 +1,6 @@
 (* C10 property theorems: statements only; every proof is [exact lemma]. *)
 From Coq Require Import ZArith.
-From Gv Require Import lib.Bytes lib.Json C02.Model C02.Spec C10.Model C10.Spec C10.ProofsStream C10.ProofsTerm C10.ProofsRecon C10.ProofsClean C10.ProofsPaths.
+From Gv Require Import lib.Bytes lib.Json C02.Model C02.Spec C10.Model C10.Spec C10.ProofsStream C10.ProofsTerm C10.ProofsRecon C10.ProofsClean C10.ProofsPaths C10.DescPath C10.ProofsDescPath.
 Open Scope N_scope.
 
 (* Every complete run of the defer-tree executor -- any interleaving of "fetch phase of group g
@@ -216,3 +216,80 @@ Example null_data_regression :
   | _ => False
   end.
 Proof. vm_compute. reflexivity. Qed.
+
+(* ---- plan level: the descriptor path (plan/defer_info_collector.go; model in DescPath.v) ---- *)
+
+(* Alias independence: renaming (adding, dropping) aliases on the field ancestors of a deferred
+   fragment changes neither the index of the outermost list field found by the lookup nor the
+   number of leading response keys kept; the path of the renamed chain is the same-length prefix
+   of its own response keys.  (The lookup reads field NAMES; a lookup by response key -- seeded
+   regression C10-m2 -- loses this.) *)
+Theorem descriptor_path_alias_independent : forall s root c1 c2,
+  same_names c1 c2 = true ->
+  outermost_list_idx s root c1 O = outermost_list_idx s root c2 O /\
+  kept s root c1 = kept s root c2 /\
+  defer_path s root c2 = firstn (kept s root c1) (candidate c2).
+Proof. exact alias_independent. Qed.
+Print Assumptions descriptor_path_alias_independent.
+
+Example descriptor_path_alias_independent_ex :
+  let c1 := [AOther; AField None b_users; AField None b_info] in
+  let c2 := [AOther; AField (Some b_list) b_users; AField (Some b_alt) b_info] in
+  same_names c1 c2 = true /\ defer_path ex_schema b_Query c1 = [b_users] /\ defer_path ex_schema b_Query c2 = [b_list].
+Proof. vm_compute. repeat split; reflexivity. Qed.
+
+(* The anchor lookup succeeds: for every well-typed ancestor chain (whatever its aliases) in which
+   no fragment narrows the type, the collector's index is the specification's (the first field whose
+   schema type -- by name, on the enclosing type -- is a list), the descriptor path is the response
+   keys up to and including that field, and the lookup does not give up.  The full statement (every
+   well-typed chain) is false of the code: descriptor_path_truncated_refuted. *)
+Theorem descriptor_path_truncated_partial : forall s root chain,
+  chain_typed s root chain = true ->
+  no_narrowing s root chain = true ->
+  outermost_list_idx s root chain O = spec_list_idx s root chain O /\
+  defer_path s root chain = spec_path s root chain /\
+  static_gives_up s root chain = false.
+Proof. exact truncated_partial. Qed.
+Print Assumptions descriptor_path_truncated_partial.
+
+Example descriptor_path_truncated_partial_ex :
+  let c := [AOther; AField (Some b_list) b_users; AFrag b_User; AField (Some b_alt) b_friends; AField None b_info] in
+  chain_typed ex_schema b_Query c = true /\ no_narrowing ex_schema b_Query c = true /\
+  defer_path ex_schema b_Query c = [b_list].
+Proof. vm_compute. repeat split; reflexivity. Qed.
+
+(* Refuted in general: { node { ... on Pet { owner { friends { alt { ... @defer {..} } } } } } } --
+   owner is not a field of the interface Node, the un-narrowed lookup gives up and the path runs
+   through the list friends (recorded finding defer-under-typed-list-dropped, replayed on the engine
+   by corpus/C10). *)
+Theorem descriptor_path_truncated_refuted : exists s root chain,
+  chain_typed s root chain = true /\ static_gives_up s root chain = true /\
+  defer_path s root chain <> spec_path s root chain.
+Proof. exact truncated_refuted_exists. Qed.
+Print Assumptions descriptor_path_truncated_refuted.
+
+(* the checker run on the implementation's DeferDescriptors decides the specification *)
+Theorem desc_path_checker_sound : forall s root chain impl,
+  desc_path_ok_b s root chain impl = true <-> impl = spec_path s root chain.
+Proof. exact desc_path_ok_sound. Qed.
+Print Assumptions desc_path_checker_sound.
+
+(* The descriptor path is a prefix of the response position of the selection set it was computed from, so a
+   defer whose fields sit in one selection set has an anchor that composes with the renderer's subPath
+   (runtime path minus the matched prefix of the descriptor path). *)
+Theorem descriptor_anchor_consistent_partial : forall s root chain,
+  prefix_b (defer_path s root chain) (candidate chain) = true /\
+  anchor_ok_b (collector_path s root [chain]) [chain] = true.
+Proof. exact anchor_consistent_partial. Qed.
+Print Assumptions descriptor_anchor_consistent_partial.
+
+(* Refuted for a defer whose fields surface in several selection sets (every top-level field of the fragment
+   is also selected outside it and merged away): the collector keeps the path of the first selection set,
+   which is not a prefix of the others -- recorded finding defer-merged-mount-wrong-anchor, reproduced on the
+   engine by corpus/C10 and work/c10_merged_mount_demo_test.go. *)
+Theorem descriptor_anchor_consistent_refuted : exists s root chains,
+  forallb (chain_typed s root) chains = true /\
+  forallb (no_narrowing s root) chains = true /\
+  anchor_ok_b (collector_path s root chains) chains = false.
+Proof. exact anchor_refuted_exists. Qed.
+Print Assumptions descriptor_anchor_consistent_refuted.
